@@ -32,7 +32,7 @@ def cbmc_cmd(cfile, prop_index, trace=True):
 def run_one(cfile, ob, timeout, mem_kb=8 * 1024 * 1024):
     """first a cheap attempt with the solver that wins most often, then the whole portfolio with the full timeout"""
     t1 = min(timeout, float(os.environ.get('STV_FIRST_TIMEOUT', '20')))
-    r = _run_one(cfile, ob, t1, mem_kb, os.environ.get('STV_PORTFOLIO_FIRST', 'z3int,z3new'))
+    r = _run_one(cfile, ob, t1, mem_kb, os.environ.get('STV_PORTFOLIO_FIRST', 'z3int,z3new,z3nl'))
     if r.status != UNDECIDED:
         return r
     r2 = _run_one(cfile, ob, timeout, mem_kb, os.environ.get('STV_PORTFOLIO', 'z3int,z3new,z3som,cvc5int,z3newint,cvc5,z3nl,z3def'))
@@ -80,7 +80,7 @@ def _run_one(cfile, ob, timeout, mem_kb, members):
     return Result(ob, UNDECIDED, secs, backend, 'cbmc verdict %s (solver gave no definite answer within %ss)' % (v, timeout))
 
 
-BATCH_KINDS = ('bounds', 'variant', 'inv_base', 'div', 'sqrt')
+BATCH_KINDS = ('bounds', 'variant', 'inv_base', 'div', 'sqrt', 'int_range')
 BATCH_SIZE = int(os.environ.get('STV_BATCH', '10'))
 
 
@@ -89,7 +89,7 @@ def run_batch(cfile, obs, timeout, mem_kb=8 * 1024 * 1024):
     env = dict(os.environ)
     env['PATH'] = PORTFOLIO + os.pathsep + env.get('PATH', '')
     env['STV_SOLVER_TIMEOUT'] = str(min(timeout, 30))
-    env['STV_PORTFOLIO'] = os.environ.get('STV_PORTFOLIO_FIRST', 'z3int,z3new')
+    env['STV_PORTFOLIO'] = os.environ.get('STV_PORTFOLIO_FIRST', 'z3int,z3new,z3nl')
     cmd = ['cbmc', cfile, '--z3', '--nondet-static', '--no-standard-checks']
     for o in obs:
         cmd += ['--property', 'main.assertion.%d' % o.index]
@@ -127,9 +127,13 @@ def run_harness(h, workdir, timeout=60, jobs=16, only=None, pool=None):
     singles = [o for o in obs if o.kind not in BATCH_KINDS]
     batchable = [o for o in obs if o.kind in BATCH_KINDS]
     futs = [pool.submit(lambda o=o: [run_one(cfile, o, timeout)]) for o in singles]
+    ranges = [o for o in batchable if o.kind == 'int_range']
+    batchable = [o for o in batchable if o.kind != 'int_range']
     for i in range(0, len(batchable), BATCH_SIZE):
         grp = batchable[i:i + BATCH_SIZE]
         futs.append(pool.submit(run_batch, cfile, grp, timeout))
+    for i in range(0, len(ranges), 4 * BATCH_SIZE):
+        futs.append(pool.submit(run_batch, cfile, ranges[i:i + 4 * BATCH_SIZE], timeout))
     if own:
         for f in futs:
             for r in f.result():
